@@ -54,6 +54,9 @@ type c10World struct {
 	snaps        []string // restored views at interior kill points of the current operation
 	lastDangling string
 	nsnap        int
+	inOp         bool // an operation of the history is running: its statements are kill points
+	probeWrites  bool // this restore is followed by a write through the restored database
+	writesLost   bool // sticky for the run: every further probe would wait for SQLite's busy timeout again
 }
 
 func copyFile(src, dst string) error {
@@ -129,7 +132,30 @@ func (w *c10World) restored() string {
 		lst = append(lst, fmt.Sprintf("%s|%s|%s", hx([]byte(l["Name"])), l["Protocol"], hx([]byte(l["Config"]))))
 	}
 	w.lastDangling = canon(dangling)
-	return fmt.Sprintf("Ragents=%s Rlinks=%s Rdangling=%s Rlisteners=%s", canon(as), canon(ls), canon(dangling), canon(lst))
+	// the restarted teamserver goes on working with this database: what it records after the restore must be there at the next restart
+	rw := "-"
+	if w.probeWrites && !w.writesLost {
+		rw = "ok"
+		d.AgentUpdate(&agent.Agent{NameID: "7ffffff1"}) // (no such row: harmless) a write through the restored handle
+		if err := d.ListenerAdd("verif-after-restart", "Smb", "{}"); err != nil {
+			rw = "LOST:" + strings.ReplaceAll(err.Error(), " ", "_")
+		} else if d2, err := db.DatabaseNew(cp); err == nil {
+			found := false
+			for _, l := range d2.ListenerAll() {
+				if l["Name"] == "verif-after-restart" {
+					found = true
+				}
+			}
+			closeDB(d2)
+			if !found {
+				rw = "LOST:not-there-after-the-next-restart"
+			}
+		}
+		if rw != "ok" {
+			w.writesLost = true // every later probe would wait for the busy timeout again
+		}
+	}
+	return fmt.Sprintf("Ragents=%s Rlinks=%s Rdangling=%s Rlisteners=%s Rwrite=%s", canon(as), canon(ls), canon(dangling), canon(lst), rw)
 }
 
 func (w *c10World) live() string {
@@ -163,13 +189,18 @@ func (w *c10World) do(c *Ctx, in string, f func()) {
 				res = "PANIC:" + panicSig(r, debug.Stack())
 			}
 		}()
+		w.inOp = true
+		defer func() { w.inOp = false }()
 		f()
 	}()
 	mid := "-"
 	if len(w.snaps) > 0 {
 		mid = strings.Join(w.snaps, "~")
 	}
-	c.Emit("%s => %s %s %s mid=%s", in, res, w.live(), w.restored(), mid)
+	w.probeWrites = true
+	final := w.restored()
+	w.probeWrites = false
+	c.Emit("%s => %s %s %s mid=%s", in, res, w.live(), final, mid)
 }
 
 func (w *c10World) callback(id uint32, cmd uint32, bodyb []byte) {
@@ -210,6 +241,13 @@ func (w *c10World) line(c *Ctx, in string) {
 		w.realWorld = newRealWorld("c10")
 		w.wrap = &snapTS{Teamserver: w.ts, w: w}
 		w.nsnap = 0
+		// kill points at every write statement, wherever in the teamserver it is issued
+		hookDB(w.ts.DB, w.dbp)
+		verifCommitHook = func() {
+			if w.inOp {
+				w.snap("stmt")
+			}
+		}
 		c.Emit("reset")
 	case "reg": // reg <id> <infoseed>
 		id := mustHex(parts[1])
